@@ -4,7 +4,7 @@
 (* files present.  Nothing in this module looks at how the cache computes them.     *)
 (*                                                                                  *)
 (* A file system is  fs : DirId -> [st, ents]  with st in {"missing","dir",         *)
-(* "notdir","badanc"} and ents : Name -> Content;  a Content is the uniform record  *)
+(* "notdir","badanc","noperm"} and ents : Name -> Content;  a Content is the uniform record  *)
 (* [k, kind, ds, v]  (k = "none" means no entry under that name).                   *)
 EXTENDS Naturals, Sequences, FiniteSets
 
@@ -16,7 +16,8 @@ NoneC == [k |-> "none", kind |-> "", ds |-> {}, v |-> 0]
 \* directory (cannot be read as a Spec: an error entry is allowed, not required),
 \* "dirent" a sub-directory carrying a Spec name (ignored like every sub-directory)
 ValidKinds == {"ok", "linkok"}
-BadKinds == {"syntax", "semantic", "empty", "dangling"}
+\* "noperm": a valid Spec file the process may not read (EACCES; the harness then runs without root)
+BadKinds == {"syntax", "semantic", "empty", "dangling", "noperm"}
 MayFailKinds == {"linkdir"}
 
 Scannable(fs, dirs, i) == fs[dirs[i]].st = "dir"
